@@ -32,9 +32,12 @@ VARIABLES
   nskip,    \* number of snaps.Skip* calls
   ran,      \* tests that began in this process
   skipSet,  \* tests that called snaps.Skip*
-  fmtOf     \* [vid -> vl]  text go-snaps produced for a value identity, first time seen
+  fmtOf,    \* [vid -> vl]  text go-snaps produced for a value identity, first time seen
+  alias     \* [path -> path] standalone locations observed elsewhere than Paths says, under the
+            \* signature of known finding K8 (`%` in a path component); the contract follows
+            \* the observed location so that the REST of the history is still judged
 
-cvars == <<mode, slot, order, alone, ord, sord, sused, addrM, addrS, usedF, visitedD, cnt, nskip, ran, skipSet, fmtOf>>
+cvars == <<mode, slot, order, alone, ord, sord, sused, addrM, addrS, usedF, visitedD, cnt, nskip, ran, skipSet, fmtOf, alias>>
 
 Get(f, k, d) == IF k \in DOMAIN f THEN f[k] ELSE d
 Put(f, k, v) == [x \in DOMAIN f \cup {k} |-> IF x = k THEN v ELSE f[x]]
@@ -69,23 +72,23 @@ CStart(m) ==
   /\ ord' = <<>> /\ sord' = <<>> /\ sused' = <<>>
   /\ addrM' = {} /\ addrS' = {} /\ usedF' = {} /\ visitedD' = {}
   /\ cnt' = ZeroCnt /\ nskip' = 0 /\ ran' = {} /\ skipSet' = {}
-  /\ UNCHANGED <<slot, order, alone, fmtOf>>
+  /\ UNCHANGED <<slot, order, alone, fmtOf, alias>>
 
 CBegin(t) ==
   /\ ran' = ran \cup {t}
-  /\ UNCHANGED <<mode, slot, order, alone, ord, sord, sused, addrM, addrS, usedF, visitedD, cnt, nskip, skipSet, fmtOf>>
+  /\ UNCHANGED <<mode, slot, order, alone, ord, sord, sused, addrM, addrS, usedF, visitedD, cnt, nskip, skipSet, fmtOf, alias>>
 
 \* cleanups of test t run: its ordinals restart at 1 (C03: repeated executions, -count)
 CEnd(t) ==
   /\ ord'  = [x \in DOMAIN ord |-> IF x[2] = t THEN 0 ELSE ord[x]]
   /\ sord' = [x \in DOMAIN sord |-> IF x \in Get(sused, t, {}) THEN 0 ELSE sord[x]]
   /\ sused' = Del(sused, {t})
-  /\ UNCHANGED <<mode, slot, order, alone, addrM, addrS, usedF, visitedD, cnt, nskip, ran, skipSet, fmtOf>>
+  /\ UNCHANGED <<mode, slot, order, alone, addrM, addrS, usedF, visitedD, cnt, nskip, ran, skipSet, fmtOf, alias>>
 
 CSkip(t) ==
   /\ skipSet' = skipSet \cup {t}
   /\ nskip' = nskip + 1
-  /\ UNCHANGED <<mode, slot, order, alone, ord, sord, sused, addrM, addrS, usedF, visitedD, cnt, ran, fmtOf>>
+  /\ UNCHANGED <<mode, slot, order, alone, ord, sord, sused, addrM, addrS, usedF, visitedD, cnt, ran, fmtOf, alias>>
 
 (***************************************************************************)
 (* One Match* call.                                                         *)
@@ -101,7 +104,8 @@ CallKey(c)   == StandaloneKey(c.cfg, c.tdir, c.test, c.api)
 CallK(c)     == IF Standalone(c) THEN Get(sord, CallKey(c), 0) + 1
                                  ELSE Get(ord, <<CallPath(c), c.test>>, 0) + 1
 CallHdr(c)   == Hdr(c.test, CallK(c))
-CallSPath(c) == StandalonePath(c.cfg, c.tdir, c.test, c.api, CallK(c))
+CallSPath0(c) == StandalonePath(c.cfg, c.tdir, c.test, c.api, CallK(c))
+CallSPath(c) == IF CallSPath0(c) \in DOMAIN alias THEN alias[CallSPath0(c)] ELSE CallSPath0(c)
 
 \* the stored value the call is compared with, if any
 Addressed(c) ==
@@ -125,13 +129,15 @@ COutcome(c) ==
 
 \* contract state after the call whose outcome was `out`; `seen` is the text observed in the
 \* addressed location afterwards (used only to learn the text of values go-snaps formats)
-CMatch(c, out, seen) ==
+\* spath: where the standalone file is (Paths' location, or the observed one under K8)
+CMatchAt(c, out, seen, spath) ==
   LET v == IF c.val.known THEN c.val ELSE [c.val EXCEPT !.vl = seen] IN
   /\ IF Standalone(c)
      THEN /\ sord' = Put(sord, CallKey(c), CallK(c))
           /\ sused' = Put(sused, c.test, Get(sused, c.test, {}) \cup {CallKey(c)})
-          /\ addrS' = addrS \cup {CallSPath(c)}
-          /\ alone' = IF Writes(out) THEN Put(alone, CallSPath(c), v) ELSE alone
+          /\ addrS' = addrS \cup {spath}
+          /\ alone' = IF Writes(out) THEN Put(alone, spath, v) ELSE alone
+          /\ alias' = IF spath # CallSPath0(c) THEN Put(alias, CallSPath0(c), spath) ELSE alias
           /\ UNCHANGED <<ord, addrM, usedF, slot, order>>
      ELSE /\ ord' = Put(ord, <<CallPath(c), c.test>>, CallK(c))
           /\ addrM' = addrM \cup {<<CallPath(c), CallHdr(c)>>}
@@ -140,12 +146,14 @@ CMatch(c, out, seen) ==
           /\ order' = IF out = "added"
                       THEN Put(order, CallPath(c), Append(Get(order, CallPath(c), <<>>), CallHdr(c)))
                       ELSE order
-          /\ UNCHANGED <<sord, sused, addrS, alone>>
+          /\ UNCHANGED <<sord, sused, addrS, alone, alias>>
   /\ visitedD' = visitedD \cup {DirOf(c.cfg, c.tdir)}
   /\ cnt' = IF out \in DOMAIN cnt THEN [cnt EXCEPT ![out] = @ + 1] ELSE cnt
   /\ fmtOf' = IF ~c.val.known /\ c.val.vid # "" /\ c.val.vid \notin DOMAIN fmtOf /\ Writes(out)
               THEN Put(fmtOf, c.val.vid, seen) ELSE fmtOf
   /\ UNCHANGED <<mode, nskip, ran, skipSet>>
+
+CMatch(c, out, seen) == CMatchAt(c, out, seen, CallSPath(c))
 
 (***************************************************************************)
 (* Clean.  Relational: the contract fixes which items are protected, which  *)
